@@ -66,6 +66,15 @@ class FaultPlan:
         self.fired = None
 
 
+def _ancestors(path):
+    out = []
+    d = posixpath.dirname(path)
+    while d not in ("/", ""):
+        out.append(d)
+        d = posixpath.dirname(d)
+    return out
+
+
 class AFS:
     def __init__(self, cwd="/cwd", order="reversed", home="/home/u", tag=""):
         self.tag = tag
@@ -93,11 +102,15 @@ class AFS:
     def mkdirs(self, d):
         d = posixpath.normpath(d)
         while d not in self.dirs:
+            if d in self.files:
+                raise ValueError("harness error: directory %s where a file already is" % d)
             self.dirs.add(d)
             d = posixpath.dirname(d)
 
     def add(self, path, fid, size):
         path = posixpath.normpath(posixpath.join(self.cwd, path))
+        if path in self.dirs or any(d in self.files for d in _ancestors(path)):
+            raise ValueError("harness error: %s is (below) an existing entry of the other kind" % path)
         self.mkdirs(posixpath.dirname(path))
         existed = path in self.files
         self.files[path] = Node(ABuf.file(fid, size))
@@ -106,6 +119,8 @@ class AFS:
 
     def add_content(self, path, content):
         path = posixpath.normpath(posixpath.join(self.cwd, path))
+        if path in self.dirs or any(d in self.files for d in _ancestors(path)):
+            raise ValueError("harness error: %s is (below) an existing entry of the other kind" % path)
         self.mkdirs(posixpath.dirname(path))
         existed = path in self.files
         self.files[path] = Node(content)
